@@ -987,7 +987,7 @@ func r04DecisionTable(c *core.Ctx) {
 		}
 		c.Check(R, "list-shape/"+name, l.pos, bad == "", fmt.Sprintf("%d entries consistent with the geometry of a segment in a 2x2 split", len(l.entries)), bad)
 	}
-	// (d) the consumer loop
+	// (d) the consumer loop, matched by structure and object identity (not by names)
 	{
 		var loop *ast.RangeStmt
 		ast.Inspect(f.Decl.Body, func(n ast.Node) bool {
@@ -999,16 +999,69 @@ func r04DecisionTable(c *core.Ctx) {
 		okLoop := false
 		why := "no loop over quadrantsToCheck"
 		if loop != nil {
-			src := canonNode(c.P, loop.Body)
-			v := canon(loop.Value)
-			condOK := strings.Contains(src, "if"+v+".certain||lineIntersects(")
-			skipAbsent := strings.Contains(src, "if!hasPoints{continue}")
-			honours := strings.Contains(src, "if"+v+".mutex&&mutexed{continue}") && strings.Contains(src, "if"+v+".mutex{mutexed=true}")
-			appends := strings.Contains(src, "found=append(found,"+v+".i)")
-			okLoop = condOK && skipAbsent && honours && appends
-			why = fmt.Sprintf("certain||lineIntersects=%v skip-absent=%v mutex-honoured=%v appends-i=%v", condOK, skipAbsent, honours, appends)
+			v := core.ObjOf(info, loop.Value)
+			fieldOf := func(e ast.Expr, name string) bool {
+				sel, ok := ast.Unparen(e).(*ast.SelectorExpr)
+				return ok && sel.Sel.Name == name && core.ObjOf(info, sel.X) == v && v != nil
+			}
+			quadrantsParam := f.Obj.Type().(*types.Signature).Params().At(1)
+			var flag, okVar, qVar, foundVar types.Object
+			skipMutex, lookup, skipAbsent, report, setFlag := false, false, false, false, false
+			for _, st := range loop.Body.List {
+				switch s := st.(type) {
+				case *ast.IfStmt:
+					cj := conjuncts(s.Cond)
+					isContinue := len(s.Body.List) == 1 && func() bool { b, ok := s.Body.List[0].(*ast.BranchStmt); return ok && b.Tok == token.CONTINUE }()
+					switch {
+					case isContinue && len(cj) == 2 && fieldOf(cj[0], "mutex") && core.ObjOf(info, cj[1]) != nil:
+						flag = core.ObjOf(info, cj[1])
+						skipMutex = true
+					case isContinue && len(cj) == 1:
+						if u, ok := ast.Unparen(cj[0]).(*ast.UnaryExpr); ok && u.Op == token.NOT && okVar != nil && core.ObjOf(info, u.X) == okVar {
+							skipAbsent = true
+						}
+					default:
+						dj := disjuncts(s.Cond)
+						if len(dj) == 2 && fieldOf(dj[0], "certain") {
+							if call, ok := ast.Unparen(dj[1]).(*ast.CallExpr); ok && core.IsCallTo(info, call, "pointindex.lineIntersects") && len(call.Args) == 2 {
+								if sel, ok := ast.Unparen(call.Args[1]).(*ast.SelectorExpr); ok && sel.Sel.Name == "intExtent" && core.ObjOf(info, sel.X) == qVar && qVar != nil {
+									for _, bs := range s.Body.List {
+										switch b := bs.(type) {
+										case *ast.AssignStmt:
+											if app, ok := b.Rhs[0].(*ast.CallExpr); ok && core.IsBuiltinCall(info, app, "append") && len(app.Args) == 2 && fieldOf(app.Args[1], "i") && core.SameObj(info, b.Lhs[0], app.Args[0]) {
+												report = true
+												foundVar = core.ObjOf(info, b.Lhs[0])
+											}
+										case *ast.IfStmt:
+											if fieldOf(b.Cond, "mutex") && len(b.Body.List) == 1 {
+												if as, ok := b.Body.List[0].(*ast.AssignStmt); ok && core.ObjOf(info, as.Lhs[0]) == flag && flag != nil && canon(as.Rhs[0]) == "true" {
+													setFlag = true
+												}
+											}
+										}
+									}
+								}
+							}
+						}
+					}
+				case *ast.AssignStmt:
+					if len(s.Lhs) == 2 && len(s.Rhs) == 1 {
+						if ix, ok := s.Rhs[0].(*ast.IndexExpr); ok && core.ObjOf(info, ix.X) == quadrantsParam && fieldOf(ix.Index, "i") {
+							lookup = true
+							qVar, okVar = core.ObjOf(info, s.Lhs[0]), core.ObjOf(info, s.Lhs[1])
+						}
+					}
+				}
+			}
+			// the list returned is the one appended to
+			retOK := false
+			if last, ok := f.Decl.Body.List[len(f.Decl.Body.List)-1].(*ast.ReturnStmt); ok && len(last.Results) == 1 {
+				retOK = foundVar != nil && core.ObjOf(info, last.Results[0]) == foundVar
+			}
+			okLoop = skipMutex && lookup && skipAbsent && report && setFlag && retOK && !hasJump(loop.Body, token.BREAK, token.RETURN, token.GOTO).IsValid()
+			why = fmt.Sprintf("mutex-skip=%v lookup-by-quadrant=%v skip-absent=%v certain-or-intersects-appends=%v mutex-set=%v returns-list=%v", skipMutex, lookup, skipAbsent, report, setFlag, retOK)
 		}
-		c.Check(R, "consumer-loop/"+f.Name, f.Decl.Pos(), okLoop, "a quadrant is reported iff it has points and (certain or lineIntersects), honouring mutex", "the loop consuming the decision table changed shape: "+why)
+		c.Check(R, "consumer-loop/"+f.Name, f.Decl.Pos(), okLoop, "a quadrant is reported iff it has points and (certain or lineIntersects(line, its extent)), honouring the mutex; the reported list is returned", "the loop consuming the decision table changed shape: "+why)
 	}
 	c.FloorPrefix(R, "list-shape/", 8)
 }
